@@ -155,7 +155,10 @@ func (x *Exec) funcOpts(fr *Frame, opts Val) (reuse string, same string) {
 // writeTensorContent models a write of new content into tensor t (buffer and abstract content).
 func (x *Exec) writeTensorContent(fr *Frame, t string, cont string, what string) {
 	st := fr.curSt
-	x.checkFrameWrite(fr, "G$t$cont", t, "", what)
+	if x.topFrame != nil && x.probing == 0 && !x.noFrame {
+		x.oblige(fr, "frame", "content-write", x.contractTags(x.topFrame), x.permitted(fr, "G$t$cont", t), fr.curPC, what+" (the buffer belongs to a tensor the function may not modify)", "")
+	}
+	x.recordStore("G$t$cont", t)
 	x.ghostSet(st, "t$cont", t, cont)
 }
 
@@ -269,6 +272,20 @@ func init() {
 		d := x.shapeOfSlice(st, dims)
 		h := x.comp(st, "E$int$0", elemSort(SInt))
 		newTotal := sx("prod", sel(h, dims.base()), dims.off(), dims.slen())
+		if n, ok := litInt(dims.slen()); ok && n >= 1 && n <= 4 {
+			// a literal number of dims (variadic call site): state the product explicitly too
+			var fs []string
+			for k := 0; k < int(n); k++ {
+				fs = append(fs, sel2(h, dims.base(), add(dims.off(), fmt.Sprint(k))))
+			}
+			explicit := fs[0]
+			if n > 1 {
+				explicit = sx("*", fs...)
+			}
+			nt := x.define("reshape_total", SInt, explicit)
+			x.assume("true", eq(nt, newTotal)) // instance of the definition of prod (n unfoldings)
+			newTotal = nt
+		}
 		// the element count of a tensor never changes after construction and always equals the
 		// product of its current shape (invariant of dense tensors)
 		oldTotal := x.tBlen(st, t)
@@ -280,7 +297,7 @@ func init() {
 		viewOK := or(eq(x.ghostGet(st, "t$view", t), "0"), x.nondetBool("view_contiguous"))
 		okT := x.define("reshape_ok", SBool, and(sizeOK, viewOK))
 		// header update (only on success)
-		x.oblige(fr, "frame", "reshape-header", x.contractTags(fr), or(not(okT), x.permitted(fr, "G$t$rank", t)), fr.curPC,
+		x.oblige(fr, "frame", "reshape-header", x.contractTags(fr), or(not(okT), eq(t, "0"), x.permitted(fr, "G$t$rank", t)), fr.curPC,
 			"Reshape changes the header (shape) of a tensor the function may not modify", "")
 		shp := x.newRef(st, "reshaped_shape")
 		x.assume(fr.curPC, fmt.Sprintf("(forall ((i Int)) (! (=> (and (<= 0 i) (< i %s)) (= (select (select %s %s) i) %s)) :pattern ((select (select %s %s) i))))",
@@ -654,7 +671,10 @@ func init() {
 			st := fr.curSt
 			t := args[0].C[0]
 			res := x.newTensorObj(fr, "addscalar", x.shapeOfTensor(st, t), x.tDtype(st, t), sx(x.ufn("k_addscalar", 2), x.tCont(st, t), args[1].pay()))
-			ok := and(numericDtype(x.tDtype(st, t)), eq(x.scalarDtype(args[1]), x.tDtype(st, t)))
+			// the operand is a Go scalar of the tensor's element type, or a (scalar) tensor, for which
+			// success is left open
+			isTensor := eq(args[1].tag(), x.denseTag())
+			ok := and(numericDtype(x.tDtype(st, t)), or(eq(x.scalarDtype(args[1]), x.tDtype(st, t)), and(isTensor, x.nondetBool("addscalar_tensor_ok"))))
 			return x.resultTE(fr, i, ok, res)
 		})
 	for _, name := range []string{"Acos", "Acosh", "Asin", "Asinh", "Atan", "Atanh", "Cos", "Cosh", "Sin", "Sinh", "Tan"} {
@@ -672,6 +692,21 @@ func (x *Exec) permitted(fr *Frame, comp, ref string) string {
 	if top == nil || x.noFrame {
 		return "true"
 	}
+	if comp == "G$t$cont" {
+		// contents live in the buffer, which views and tensors built over an existing backing share
+		// with the tensor they come from: a new header does not make an old buffer writable
+		st := fr.curSt
+		buf := x.tBuf(st, ref)
+		alts := []string{sx(">=", buf, top.allocEntry), eq(ref, "0")} // a nil tensor cannot be written: the call panics first
+		for _, ls := range top.modLocs {
+			for _, cn := range ls.Comps {
+				if cn == comp {
+					alts = append(alts, eq(buf, x.tBuf(st, ls.Ref)))
+				}
+			}
+		}
+		return or(alts...)
+	}
 	var alts []string
 	alts = append(alts, sx(">=", ref, top.allocEntry))
 	for _, ls := range top.modLocs {
@@ -683,3 +718,4 @@ func (x *Exec) permitted(fr *Frame, comp, ref string) string {
 	}
 	return or(alts...)
 }
+
